@@ -242,6 +242,48 @@ Definition prepeptide_locs (l : loc) (ll tl : Z) : res (list loc) :=
   do tail <- (if 0 <? tl then do x <- get_sub l false false (total - tl) total; Ok [x] else Ok []);
   Ok (leader ++ [core] ++ tail).
 
+(* ---------- locations.build_location_from_others ---------- *)
+(* one round of the loop: "if loc.start == location.end" the last part of the location built so far
+   and the first part of loc are replaced by FeatureLocation(location.parts[-1].start,
+   loc.parts[0].end, location.strand) (Biopython refuses end < start with ValueError), otherwise
+   the parts are concatenated; a one-part result stands for the FeatureLocation "new_sub" *)
+Definition blo_step (location l : loc) : res loc :=
+  if lstart l =? lend location then
+    match last_opt location, l with
+    | Some lp, f :: rest =>
+      do ns <- mkFL (ps lp) (pe f) (lstrand location);
+      Ok (removelast location ++ ns :: rest)
+    | _, _ => Err E_Index
+    end
+  else Ok (location ++ l).
+Fixpoint blo_go (location : loc) (rest : list loc) : res loc :=
+  match rest with
+  | [] => Ok location
+  | l :: r => do x <- blo_step location l; blo_go x r
+  end.
+Definition build_from_others (locs : list loc) : res loc :=
+  match locs with
+  | [] => Err E_Value
+  | l :: r => blo_go l r
+  end.
+
+(* ---------- Prepeptide.to_biopython -> Prepeptide.from_biopython ---------- *)
+(* the core feature carries leader_location / tail_location as text (str(location) and
+   location_from_string are inverse to each other on such locations: C04); from_biopython hands
+   [leader, core, tail] (those that exist) to build_location_from_others and the constructor
+   (Feature.__init__) checks the result *)
+Definition prepeptide_reread (l : loc) (ll tl : Z) : res loc :=
+  do locs <- prepeptide_locs l ll tl;
+  do g <- build_from_others locs;
+  do _ <- feature_init g;
+  Ok g.
+(* the re-read location, and leader/core/tail computed again from it *)
+Definition prepeptide_roundtrip (l : loc) (ll tl : Z) : list Z :=
+  match prepeptide_reread l ll tl with
+  | Err k => [1; k]
+  | Ok g => 0 :: eLoc g ++ eRes (eList eLoc) (prepeptide_locs g ll tl)
+  end.
+
 (* ---------- TTAResults.new_feature_from_other ---------- *)
 (* Feature() refuses a negative start with ValueError *)
 Definition tta_marker (l : loc) (offset : Z) : res loc :=
@@ -338,6 +380,18 @@ Definition spec_prepeptide (g : loc) (ll tl : Z) (out : res (list loc)) : bool :
     end
   end.
 
+(* the prepeptide location g' after to_biopython -> from_biopython, judged against the gene g it was
+   made from: [ g' reads exactly the first 3*total coordinates of g's reading order (so every base
+   of g' is a base of g; exons that adjoin without an intron may come back merged, hence no
+   part-by-part containment test); leader/core/tail computed again satisfy spec_prepeptide w.r.t.
+   g' - together with the first clause: they read the coordinates of g that encode them;
+   g' is part for part the gene's location (informative only) ] *)
+Definition spec_reread (g : loc) (ll tl : Z) (g' : loc) (again : res (list loc)) : list Z :=
+  let total := llen g / 3 in
+  eBool (zlist_eqb (idx g') (sublist 0 (3 * total) (idx g)) && (llen g' =? 3 * total))
+  ++ eBool (spec_prepeptide g' ll tl again)
+  ++ eBool (loc_eqb g' g).
+
 (* the marker of the codon at offset i of the gene's reading order *)
 Definition spec_tta (g : loc) (i : Z) (out : res loc) : bool :=
   match out with
@@ -383,6 +437,13 @@ Definition dResLoc : dec (res loc) := fun l =>
 Definition dResLocs : dec (res (list loc)) := fun l =>
   match l with
   | 0 :: r => match dList dLoc r with Some (x, r') => Some (Ok x, r') | None => None end
+  | 1 :: k :: r => Some (Err k, r)
+  | _ => None
+  end.
+(* the output of prepeptide_roundtrip *)
+Definition dReread : dec (res (loc * res (list loc))) := fun l =>
+  match l with
+  | 0 :: r => match dPair dLoc dResLocs r with Some (x, r') => Some (Ok x, r') | None => None end
   | 1 :: k :: r => Some (Err k, r)
   | _ => None
   end.
@@ -439,6 +500,16 @@ Definition run_C09 (fn : Z) (l : list Z) : list Z :=
          | Some ((a, cs, (bases, tbl), (s, e)), []) =>
            if nonempty_loc a then load_path tbl (seq_of bases) (zlen bases) a cs s e else bad_input
          | _ => bad_input end
+  (* 9: Prepeptide.to_biopython -> from_biopython (build_location_from_others) -> to_biopython *)
+  | 9 => match dPair dLoc (dPair dZ dZ) l with
+         | Some ((a, (ll, tl)), []) =>
+           if nonempty_loc a then prepeptide_roundtrip a ll tl else bad_input
+         | _ => bad_input end
+  (* 20: build_location_from_others *)
+  | 20 => match dList dLoc l with
+          | Some (locs, []) =>
+            if forallb nonempty_loc locs then eRes eLoc (build_from_others locs) else bad_input
+          | _ => bad_input end
   (* specification verdicts on the implementation's output: [spec_ok; gene class] *)
   | 12 => match dPair (dPair dLoc (dPair dBool dBool)) (dPair (dPair dZ dZ) dResLoc) l with
           | Some ((a, _, ((s, e), out)), []) => eBool (spec_sub_res a s e out) ++ [gene_class a]
@@ -448,6 +519,13 @@ Definition run_C09 (fn : Z) (l : list Z) : list Z :=
           | _ => bad_input end
   | 15 => match dPair dLoc (dPair dZ dResLoc) l with
           | Some ((a, (off, out)), []) => eBool (spec_tta a off out) ++ [gene_class a]
+          | _ => bad_input end
+  | 19 => match dPair dLoc (dPair (dPair dZ dZ) dReread) l with
+          | Some ((a, ((ll, tl), out)), []) =>
+            match out with
+            | Ok (g', again) => 0 :: spec_reread a ll tl g' again ++ [gene_class a]
+            | Err k => [1; k; gene_class a]
+            end
           | _ => bad_input end
   | 17 | 18 => match dPair dLoadIn dLoaded l with
           | Some ((a, cs, (bases, tbl), (s, e), out), []) =>
